@@ -313,13 +313,20 @@ def run_check(prop, spec, tier, seed):
                 if os.path.exists(p):
                     os.remove(p)
     try:
-        okmods, errors, raw, failed = lake_build(mods, timeout=3000)
+        okmods, errors, raw, failed = lake_build(mods, timeout=1500)
+    except subprocess.TimeoutExpired:
+        # a build that does not finish proves nothing: every theorem of the property counts as
+        # not discharged and the search for a failing input goes on
+        log('lake build of the property modules timed out')
+        subprocess.run(['pkill', '-f', 'lean .*%s' % LEAN], capture_output=True)
+        okmods, errors, raw, failed = set(), {m: [(0, 'lake build timed out')] for m in mods}, '', set(mods)
+    try:
         # the correspondence registries are built separately so that an unrelated twin
         # cannot take this property's theorems down with it
-        regs, rerrors, _, _ = lake_build(['EPV.Gen.Registry', 'EPV.Gen.ModelRegistry'], timeout=3000)
+        regs, rerrors, _, _ = lake_build(['EPV.Gen.Registry', 'EPV.Gen.ModelRegistry'], timeout=1500)
     except subprocess.TimeoutExpired:
-        log('lake build timed out')
-        return 2
+        log('lake build of the correspondence registries timed out')
+        regs = set()
     ranges = {m: theorem_ranges(m) for m in mods}
     status = {}     # obligation id -> (ok, reason)
     thms = []
@@ -482,9 +489,14 @@ def run_check(prop, spec, tier, seed):
                 if r1.get('worst') is not None:
                     res['worst'] = r1['worst']
         except Exception as ex:
-            log('oracle for %s crashed: %s' % (o['id'], ex))
-            log(traceback.format_exc())
-            return 2
+            # an oracle that cannot run on this tree decides nothing: the obligation is no longer
+            # shown to hold (reported below, with the crash as the reason), the run goes on
+            why = 'oracle for %s cannot run on this tree: %s: %s' % (o['id'], type(ex).__name__, str(ex)[:200])
+            log(why)
+            R.notes.append(traceback.format_exc()[-1200:])
+            if status.get(o['id'], (True, None))[0]:
+                status[o['id']] = (False, why)
+            res = dict(evaluations=0, distinct_nontrivial=0, failures=[], samples=[], worst=None)
         R.ev['evaluations'] += res.get('evaluations', 0)
         R.ev['distinct_nontrivial'] += res.get('distinct_nontrivial', res.get('evaluations', 0))
         R.ev['oracles'][o['id']] = dict(evaluations=res.get('evaluations', 0), failures=len(res.get('failures', [])),
